@@ -55,6 +55,35 @@ def knobs(capacity=None, optimise=True):
         GT.peephole = old_pp
 
 
+def clear_kernel_cache():
+    """Empty the kernel cache of tensora.compile._porcelain whatever it is called: every module-level object with a
+    cache_clear() (an lru_cache) is cleared, and dictionaries the module keeps next to it are emptied.  Returns the
+    number of caches cleared (0 = the module caches nothing the harness can see)."""
+    ensure_tensora()
+    import tensora.compile._porcelain as P
+
+    n = 0
+    for v in list(vars(P).values()):
+        cc = getattr(v, "cache_clear", None)
+        if callable(cc):
+            cc()
+            n += 1
+    return n
+
+
+def kernel_cache_info():
+    """cache_info() of the kernel cache (the first lru_cache found in _porcelain, cachable_tensor_method first)."""
+    ensure_tensora()
+    import tensora.compile._porcelain as P
+
+    cands = [getattr(P, "cachable_tensor_method", None)] + list(vars(P).values())
+    for v in cands:
+        ci = getattr(v, "cache_info", None)
+        if callable(ci):
+            return ci()
+    raise HarnessError("tensora.compile._porcelain has no lru_cache any more")
+
+
 def problem_of(case):
     ensure_tensora()
     from tensora.problem import Problem
